@@ -84,11 +84,11 @@ CLAIMED = {
 
  "C19": ("exploration", "DESIGN.md §5 C19",
    "exhaustive enumeration: all values of the universe x all predicates/conversions/getters; all 256 codes; all names and near-miss names; all record lists up to length 3",
-   "Every value of Σ ∪ U: exactly one of 18 predicates, HaystackKind::from, all 20 typed TryFrom<&Value> and 14 dict getters + 3 has_* succeed exactly for the matching kind and return the stored payload; all 256 u8 codes and 18 names map one-to-one and every near-miss name is rejected; every list of <= 3 records through the three grid constructors keeps rows in order with sorted distinct columns.",
+   "Every value of Σ ∪ U: exactly one of 18 predicates, HaystackKind::from, all 20 typed TryFrom<&Value> and 14 dict getters + 3 has_* succeed exactly for the matching kind and return the stored payload; all 256 u8 codes and 18 names map one-to-one and every near-miss name is rejected; every list of <= 3 (thorough 4) records over 19 records (every key set over {a,b,c,d} + mixed-case names) through the three grid constructors keeps rows in order with sorted distinct columns.",
    "Payload comparison uses the harness value model."),
  "C20": ("exploration", "DESIGN.md §5 C20",
    "exhaustive enumeration of all records over the 8 display tags and of all macro patterns up to length 6/7 over a 12-character alphabet, against a hand-written reference scanner",
-   "All 3^8 records (each display tag absent or one of two values of different kinds) with/without default and via Dict::dis(); every pattern of length <= 6 (thorough 7) over {$ { } < > a b B 1 _ space é} against three scopes and a localiser; reference = precedence chain of the statement + left-to-right macro scanner without regex.",
+   "All 4^8 records (each display tag absent or one of three values of different kinds) with/without default and via Dict::dis(); every pattern of length <= 6 (thorough 7) over {$ { } < > a b B 1 _ space é} against three scopes and a localiser; reference = precedence chain of the statement + left-to-right macro scanner without regex.",
    "Text of non-Str/non-Ref values is delegated to Value::to_string(). Macro name syntax [a-z][A-Za-z0-9_]* taken from the Haystack tag-name grammar."),
 }
 
